@@ -9,8 +9,9 @@ package agent
 //@ model snap SeqU
 
 //@ global collatorClass guarded_by collatorMutex
+//@ global collatorClass nonnil
 //@ func Collator
-//@   props C19
+//@   props C19 C08
 //@   syncwrites
 //@   nopanic
 //@   assumes !held(addrof(collatorMutex))
@@ -182,13 +183,14 @@ package agent
 //@   ensures rankdet(this) ==> result == rank(this, first, second)
 
 //@ func (*sorter_).ReverseValues
-//@   props C09 C19
+//@   props C09 C19 C01 C03
+//@   implements SorterLike.ReverseValues
 //@   nopanic
 //@   let n := len(values)
 //@   let s := view(values)
 //@   modifies elems(values)
-//@   ensures[C09] len(values) == n && (forall i :: 0 <= i && i < n ==> view(values)[i] == s[n - 1 - i])
-//@   ensures[C09] forall j :: (j < off(values) || j >= off(values) + n) ==> rawat(values, j) == old(rawat(values, j))
+//@   ensures[C09,C01,C03] len(values) == n && (forall i :: 0 <= i && i < n ==> view(values)[i] == s[n - 1 - i])
+//@   ensures[C09,C01,C03] forall j :: (j < off(values) || j >= off(values) + n) ==> rawat(values, j) == old(rawat(values, j))
 //@   loop 1:
 //@     invariant 0 <= index && index <= half && half == n / 2 && length == n && n >= 0
 //@     invariant forall i :: 0 <= i && i < index ==> view(values)[i] == s[n - 1 - i] && view(values)[n - 1 - i] == s[i]
@@ -205,7 +207,7 @@ package agent
 //@ define outside(s, j) := j < off(s) || j >= off(s) + len(s)
 
 //@ func (*sorter_).mergeArrays
-//@   props C09 C19
+//@   props C09 C19 C01 C03
 //@   uses cnt_extend
 //@   nopanic
 //@   let L := view(left)
@@ -215,8 +217,8 @@ package agent
 //@   let rk := this.ranker_
 //@   requires len(merged) == len(left) + len(right) && arr(merged) != arr(left) && arr(merged) != arr(right)
 //@   modifies elems(merged), cstate(boundrecv(this.ranker_))
-//@   ensures[C09] forall j :: outside(merged, j) ==> rawat(merged, j) == old(rawat(merged, j))
-//@   ensures[C09] forall x U :: cnt(view(merged), 0, len(merged), x) == cnt(L, 0, nl, x) + cnt(R, 0, nr, x)
+//@   ensures[C09,C01,C03] forall j :: outside(merged, j) ==> rawat(merged, j) == old(rawat(merged, j))
+//@   ensures[C09,C01,C03] forall x U :: cnt(view(merged), 0, len(merged), x) == cnt(L, 0, nl, x) + cnt(R, 0, nr, x)
 //@   ensures[C09] rpre(rk) && ordered(rk, L, 0, nl) && ordered(rk, R, 0, nr) ==> ordered(rk, view(merged), 0, len(merged))
 //@   loop 1:
 //@     invariant 0 <= leftIndex && 0 <= rightIndex && 0 <= mergedIndex && mergedIndex <= mergedLength + 1
@@ -225,9 +227,9 @@ package agent
 //@     invariant forall j :: outside(merged, j) ==> rawat(merged, j) == old(rawat(merged, j))
 //@     invariant mergedIndex <= mergedLength ==> (forall x U :: cnt(view(merged), 0, mergedIndex, x) == cnt(L, 0, leftIndex, x) + cnt(R, 0, rightIndex, x))
 //@     invariant mergedIndex > mergedLength ==> (forall x U :: cnt(view(merged), 0, mergedLength, x) == cnt(L, 0, nl, x) + cnt(R, 0, nr, x))
-//@     invariant rpre(rk) && ordered(rk, L, 0, nl) && ordered(rk, R, 0, nr) && mergedIndex <= mergedLength ==> ordered(rk, view(merged), 0, mergedIndex)
-//@     invariant rpre(rk) && ordered(rk, L, 0, nl) && ordered(rk, R, 0, nr) && mergedIndex > mergedLength ==> ordered(rk, view(merged), 0, mergedLength)
-//@     invariant rpre(rk) && ordered(rk, L, 0, nl) && ordered(rk, R, 0, nr) && mergedIndex <= mergedLength ==> (forall i :: 0 <= i && i < mergedIndex ==> (leftIndex < nl ==> rank(rk, view(merged)[i], L[leftIndex]) <= 1) && (rightIndex < nr ==> rank(rk, view(merged)[i], R[rightIndex]) <= 1))
+//@     invariant[C09] rpre(rk) && ordered(rk, L, 0, nl) && ordered(rk, R, 0, nr) && mergedIndex <= mergedLength ==> ordered(rk, view(merged), 0, mergedIndex)
+//@     invariant[C09] rpre(rk) && ordered(rk, L, 0, nl) && ordered(rk, R, 0, nr) && mergedIndex > mergedLength ==> ordered(rk, view(merged), 0, mergedLength)
+//@     invariant[C09] rpre(rk) && ordered(rk, L, 0, nl) && ordered(rk, R, 0, nr) && mergedIndex <= mergedLength ==> (forall i :: 0 <= i && i < mergedIndex ==> (leftIndex < nl ==> rank(rk, view(merged)[i], L[leftIndex]) <= 1) && (rightIndex < nr ==> rank(rk, view(merged)[i], R[rightIndex]) <= 1))
 //@     decreases mergedLength - mergedIndex
 
 // run structure of the bottom-up merge sort: rdiv(i, w) is the index of the run of width w that
@@ -250,15 +252,15 @@ package agent
 //@ define runsordered(r, s, n, w) := forall i, j :: { s[i], s[j] } 0 <= i && i <= j && j < n && samerun(i, j, w) ==> rank(r, s[i], s[j]) <= 1
 
 //@ func (*sorter_).sortValues
-//@   props C09 C19
+//@   props C09 C19 C01 C03
 //@   uses cnt_agree, cnt_split, cnt_extend, align_zero, align_step, rdiv_mono, rdiv_before, rdiv_within, rdiv_first, rdiv_one
 //@   nopanic
 //@   let N := len(values)
 //@   let V0 := view(values)
 //@   let rk := this.ranker_
 //@   modifies elems(values), cstate(boundrecv(this.ranker_))
-//@   ensures[C09] forall j :: outside(values, j) ==> rawat(values, j) == old(rawat(values, j))
-//@   ensures[C09] forall x U :: cnt(view(values), 0, N, x) == cnt(V0, 0, N, x)
+//@   ensures[C09,C01,C03] forall j :: outside(values, j) ==> rawat(values, j) == old(rawat(values, j))
+//@   ensures[C09,C01,C03] forall x U :: cnt(view(values), 0, N, x) == cnt(V0, 0, N, x)
 //@   ensures[C09] rpre(rk) ==> ordered(rk, view(values), 0, N)
 //@   loop 1:
 //@     invariant width >= 1 && width <= 2 * MAXLEN && length == N && len(values) == N && len(buffer) == N && arr(values) != arr(buffer)
@@ -266,7 +268,7 @@ package agent
 //@     invariant forall j :: outside(entry(values), j) ==> rawat(entry(values), j) == old(rawat(entry(values), j))
 //@     invariant forall x U :: cnt(view(buffer), 0, N, x) == cnt(V0, 0, N, x)
 //@     invariant unchanged(elems, arr(entry(values)))
-//@     invariant rpre(rk) ==> runsordered(rk, view(buffer), N, width)
+//@     invariant[C09] rpre(rk) ==> runsordered(rk, view(buffer), N, width)
 //@     decreases N - width
 //@   loop 2:
 //@     invariant 0 <= left && left <= N + 2 * width && aligned(left, 2 * width) && width >= 1 && width <= MAXLEN && length == N && len(values) == N && len(buffer) == N && arr(values) != arr(buffer)
@@ -274,8 +276,8 @@ package agent
 //@     invariant forall j :: outside(entry(values), j) ==> rawat(entry(values), j) == old(rawat(entry(values), j))
 //@     invariant forall x U :: cnt(view(buffer), 0, N, x) == cnt(V0, 0, N, x)
 //@     invariant unchanged(elems, arr(entry(values)))
-//@     invariant rpre(rk) ==> runsordered(rk, view(buffer), N, width)
-//@     invariant rpre(rk) ==> (forall i, j :: { view(values)[i], view(values)[j] } 0 <= i && i <= j && j < N && j < left && samerun(i, j, 2 * width) ==> rank(rk, view(values)[i], view(values)[j]) <= 1)
+//@     invariant[C09] rpre(rk) ==> runsordered(rk, view(buffer), N, width)
+//@     invariant[C09] rpre(rk) ==> (forall i, j :: { view(values)[i], view(values)[j] } 0 <= i && i <= j && j < N && j < left && samerun(i, j, 2 * width) ==> rank(rk, view(values)[i], view(values)[j]) <= 1)
 //@     invariant left <= N ==> (forall x U :: cnt(view(values), 0, left, x) == cnt(view(buffer), 0, left, x))
 //@     invariant left > N ==> (forall x U :: cnt(view(values), 0, N, x) == cnt(view(buffer), 0, N, x))
 //@     decreases N + 2 * width - left
@@ -283,9 +285,9 @@ package agent
 //@   hint before call mergeArrays#1: aligned(left, width) && (middle == left + width ==> aligned(middle, width))
 //@   hint before call mergeArrays#1: forall a :: { view(buffer[left:middle])[a] } 0 <= a && a < middle - left ==> view(buffer[left:middle])[a] == view(buffer)[left + a]
 //@   hint before call mergeArrays#1: forall a :: { view(buffer[middle:right])[a] } 0 <= a && a < right - middle ==> view(buffer[middle:right])[a] == view(buffer)[middle + a]
-//@   hint before call mergeArrays#1: rpre(rk) ==> ordered(rk, view(buffer[left:middle]), 0, middle - left)
-//@   hint before call mergeArrays#1: rpre(rk) ==> ordered(rk, view(buffer[middle:right]), 0, right - middle)
-//@   hint call mergeArrays#1: rpre(rk) ==> ordered(rk, view(values[left:right]), 0, right - left)
+//@   hint[C09] before call mergeArrays#1: rpre(rk) ==> ordered(rk, view(buffer[left:middle]), 0, middle - left)
+//@   hint[C09] before call mergeArrays#1: rpre(rk) ==> ordered(rk, view(buffer[middle:right]), 0, right - middle)
+//@   hint[C09] call mergeArrays#1: rpre(rk) ==> ordered(rk, view(values[left:right]), 0, right - left)
 //@   hint call mergeArrays#1: forall k :: { view(values)[k] } left <= k && k < right ==> view(values)[k] == view(values[left:right])[k - left]
 //@   hint call mergeArrays#1: forall k :: { view(values)[k] } 0 <= k && k < left ==> view(values)[k] == pre(view(values))[k]
 //@   hint call mergeArrays#1: forall k :: { view(buffer)[k] } 0 <= k && k < N ==> view(buffer)[k] == pre(view(buffer))[k]
@@ -308,42 +310,53 @@ package agent
 //@ lemma[C09] cnt_swap_lt uses cnt_five, cnt_agree, cnt_point: forall s Seq, t Seq, n Int, a Int, b Int, x U :: { cnt(t, 0, n, x), cnt(s, 0, n, x), t[a], t[b] } 0 <= a && a < b && b < n && t[a] == s[b] && t[b] == s[a] && (forall i :: 0 <= i && i < n && i != a && i != b ==> t[i] == s[i]) && fiveparts(s, n, a, b, x) && fiveparts(t, n, a, b, x) ==> cnt(t, 0, n, x) == cnt(s, 0, n, x)
 //@ lemma[C09] cnt_swap uses cnt_swap_lt, cnt_agree, cnt_nonneg: forall s Seq, t Seq, n Int, a Int, b Int, x U :: { cnt(t, 0, n, x), cnt(s, 0, n, x), t[a], t[b] } 0 <= a && a <= b && b < n && t[a] == s[b] && t[b] == s[a] && (forall i :: 0 <= i && i < n && i != a && i != b ==> t[i] == s[i]) ==> cnt(t, 0, n, x) == cnt(s, 0, n, x)
 
+// the body is verified against assumed contracts of math/big and crypto/rand (bigval(b): the integer a *big.Int holds);
+// the one thing assumed about the environment is that the system's random source does not fail
+//@ declare bigval(U) Int
+//@ assume func big.NewInt
+//@   nopanic
+//@   ensures fresh(result) && result != nil && bigval(result) == $1
+//@ assume func rand.Int
+//@   ensures bigval($2) > 0 && result.1 == nil && result.0 != nil && 0 <= bigval(result.0) && bigval(result.0) < bigval($2)
+//@   xensures bigval($2) <= 0
+//@ assume func (*big.Int).Int64
+//@   nopanic
+//@   ensures -9223372036854775808 <= bigval(this) && bigval(this) <= 9223372036854775807 ==> result == bigval(this)
 //@ func (*sorter_).randomizeIndex
-//@   props C19
-//@   noverify
-//@   trusted
+//@   props C09 C19 C01 C03
+//@   safe
 //@   nopanic
 //@   requires size > 0
-//@   ensures 0 <= result && result < size
+//@   ensures[C09,C01,C03] 0 <= result && result < size
 
 //@ iface SorterLike.SortValues
 //@   nopanic
 //@   let N := len(values)
 //@   let V0 := view(values)
 //@   modifies elems(values), cstate(boundrecv(rkr(this)))
-//@   ensures[C09] forall j :: outside(values, j) ==> rawat(values, j) == old(rawat(values, j))
-//@   ensures[C09] forall x U :: cnt(view(values), 0, N, x) == cnt(V0, 0, N, x)
+//@   ensures[C09,C01,C03] forall j :: outside(values, j) ==> rawat(values, j) == old(rawat(values, j))
+//@   ensures[C09,C01,C03] forall x U :: cnt(view(values), 0, N, x) == cnt(V0, 0, N, x)
 //@   ensures[C09] rpre(rkr(this)) ==> ordered(rkr(this), view(values), 0, N)
 //@ iface SorterLike.ReverseValues
 //@   nopanic
 //@   let n := len(values)
 //@   let s := view(values)
 //@   modifies elems(values)
-//@   ensures[C09] forall i :: 0 <= i && i < n ==> view(values)[i] == s[n - 1 - i]
-//@   ensures[C09] forall j :: outside(values, j) ==> rawat(values, j) == old(rawat(values, j))
+//@   ensures[C09,C01,C03] forall i :: 0 <= i && i < n ==> view(values)[i] == s[n - 1 - i]
+//@   ensures[C09,C01,C03] forall j :: outside(values, j) ==> rawat(values, j) == old(rawat(values, j))
 //@ iface SorterLike.ShuffleValues
 //@   nopanic
 //@   let N := len(values)
 //@   let V0 := view(values)
 //@   modifies elems(values)
-//@   ensures[C09] forall j :: outside(values, j) ==> rawat(values, j) == old(rawat(values, j))
-//@   ensures[C09] forall x U :: cnt(view(values), 0, N, x) == cnt(V0, 0, N, x)
+//@   ensures[C09,C01,C03] forall j :: outside(values, j) ==> rawat(values, j) == old(rawat(values, j))
+//@   ensures[C09,C01,C03] forall x U :: cnt(view(values), 0, N, x) == cnt(V0, 0, N, x)
 
 //@ func (*sorter_).SortValues
-//@   props C09 C19
+//@   props C09 C19 C01 C03
 //@   implements SorterLike.SortValues
 //@ func (*sorter_).ShuffleValues
-//@   props C09 C19
+//@   props C09 C19 C01 C03
 //@   implements SorterLike.ShuffleValues
 //@   uses cnt_swap
 //@   loop 1:
@@ -459,6 +472,26 @@ package agent
 
 //@ type *collator_
 //@   invariant[C08] 0 <= this.depth_ && this.depth_ <= this.maximum_
+
+// constructors: the depth invariant is established from the class's default maximum, which is written once where the
+// class is allocated (Collator()) and is non-negative there (construction invariant: proved at the allocation)
+//@ declare cdefmax(U) Int
+//@ type *collatorClass_
+//@   immutable defaultMaximum_ cdefmax
+//@   constinv[C08] this.defaultMaximum_ >= 0
+//@ func (*collatorClass_).Make
+//@   props C08 C19
+//@   implements CollatorClassLike.Make
+//@   ensures[C08] inv(collator_, result)
+//@ func (*collatorClass_).MakeWithMaximum
+//@   props C08 C19
+//@   nopanic
+//@   ensures fresh(result) && result != nil
+//@   ensures[C08] inv(collator_, result)
+//@ func (*collatorClass_).DefaultMaximum
+//@   props C08 C19
+//@   nopanic
+//@   ensures[C08] result >= 0
 
 // The private traversal functions keep the depth counter balanced on normal exits (a panic may leave it
 // raised; the public methods must restore it), and their mutual recursion is bounded by the variant
